@@ -929,6 +929,12 @@ class Engine:
             if tok == ">=":
                 return x >= y if signed else z3.UGE(x, y)
         elif k == "float":
+            if z3.is_fp_value(x) and z3.is_fp_value(y) and tok in ("+", "-", "*", "/"):
+                op = {"+": z3.fpAdd, "-": z3.fpSub, "*": z3.fpMul, "/": z3.fpDiv}[tok]
+                return z3.simplify(op(RNE, x, y))
+            if z3.is_fp_value(x) and z3.is_fp_value(y) and tok in ("<", "<=", ">", ">="):
+                op = {"<": z3.fpLT, "<=": z3.fpLEQ, ">": z3.fpGT, ">=": z3.fpGEQ}[tok]
+                return z3.simplify(op(x, y))
             if tok == "+":
                 return z3.fpAdd(RNE, x, y)
             if tok == "-":
